@@ -5,7 +5,8 @@ package main
 //   c05.gated <kind> <cap> <nreaders> <op>…            gated schedules (see c04.go)
 //   c05.free  <kind> <cap> <nreaders> <iters> <seed>   free-running readers on a real pool
 //        result: g<r>.<ev> (logged after get returned) | b<r> (logged before back is called) |
-//                u<n> (pool.inUse() sampled) … end <inUseRaw> <waiters>
+//                u<n> (pool.inUse() sampled) … max <most events held at once, counted by the harness>
+//                end <inUseRaw> <waiters>
 //   c05.pipe  <kind> <cap> <parallel> <nsources> <k>…  a real pipeline: harness input, one harness action,
 //        devnull output; k per event: p pass | d discard | h hold (propagated by the next event or a
 //        time-out) | x undecodable | r refused by PassEvent
@@ -14,6 +15,7 @@ package main
 import (
 	"bufio"
 	"fmt"
+	"runtime"
 	"sort"
 	"strings"
 	"sync"
@@ -65,6 +67,9 @@ func execPoolFree(t *hx.Toks) string {
 			time.Sleep(200 * time.Microsecond)
 		}
 	}()
+	// the harness's own count of events held: +1 right after get returned, -1 right before back is
+	// called, so it never exceeds the number really held; independent of the pool's counter
+	var held, maxHeld atomic.Int64
 	for r := 0; r < n; r++ {
 		wg.Add(1)
 		go func(r int) {
@@ -72,14 +77,28 @@ func execPoolFree(t *hx.Toks) string {
 			rng := hx.NewRng(seed*977 + uint64(r))
 			for i := 0; i < iters; i++ {
 				e := v.Get(1 + rng.Intn(2000))
-				emit(fmt.Sprintf("g%d.%d", r, v.EventIndex(e)))
-				for k := rng.Intn(200); k > 0; k-- {
-					_ = k * k
+				h := held.Add(1)
+				for {
+					m := maxHeld.Load()
+					if h <= m || maxHeld.CompareAndSwap(m, h) {
+						break
+					}
 				}
-				if rng.Chance(1, 8) {
-					time.Sleep(time.Duration(rng.Intn(300)) * time.Microsecond)
+				emit(fmt.Sprintf("g%d.%d", r, v.EventIndex(e)))
+				// hold it for a while: other readers must meet a full pool
+				switch rng.Intn(4) {
+				case 0:
+					runtime.Gosched()
+				case 1:
+					time.Sleep(time.Duration(5+rng.Intn(60)) * time.Microsecond)
+				default:
+					for k := 200 + rng.Intn(3000); k > 0; k-- {
+						_ = k * k
+					}
+					runtime.Gosched()
 				}
 				emit(fmt.Sprintf("b%d", r))
+				held.Add(-1)
 				v.Back(e)
 			}
 		}(r)
@@ -100,7 +119,7 @@ func execPoolFree(t *hx.Toks) string {
 	if wedged {
 		out += " wedged"
 	}
-	return fmt.Sprintf("%s end %d %d", out, v.InUseRaw(), v.Waiters())
+	return fmt.Sprintf("%s max %d end %d %d", out, maxHeld.Load(), v.InUseRaw(), v.Waiters())
 }
 
 // ---- whole pipeline ------------------------------------------------------------------------
@@ -315,16 +334,33 @@ func genC05(w *bufio.Writer, rng *hx.Rng, tier string) {
 	if tier == "thorough" {
 		nfree, npipe = 400, 300
 	}
-	// free-running readers: every capacity 1..8 on both pools first
+	// free-running readers. Many readers against a small capacity first (every get meets a full
+	// pool, every back wakes a crowd): capacities 1..3, 8..16 readers, both pools
 	for _, k := range []string{"lowmem", "std"} {
-		for c := 1; c <= 8; c++ {
-			fmt.Fprintf(w, "c05.free %s %d %d %d %d\n", k, c, c+2, 40, rng.Intn(1000000))
+		reps := 1
+		if k == "lowmem" {
+			reps = 2
+		}
+		for c := 1; c <= 3; c++ {
+			for rep := 0; rep < reps; rep++ {
+				// measured on a tree where get() is check-then-act: cap 1: 13/20, cap 2: 19/20, cap 3: 20/20
+				// runs of ONE such case show more events held than the capacity
+				fmt.Fprintf(w, "c05.free %s %d %d %d %d\n", k, c, 4+4*c, 250, rng.Intn(1000000))
+			}
+		}
+	}
+	for _, k := range []string{"lowmem", "std"} {
+		for c := 4; c <= 8; c++ {
+			fmt.Fprintf(w, "c05.free %s %d %d %d %d\n", k, c, c+rng.Range(2, 8), 40, rng.Intn(1000000))
 		}
 	}
 	for i := 0; i < nfree; i++ {
 		k := []string{"lowmem", "std"}[rng.Intn(2)]
 		c := rng.Range(1, 8)
-		fmt.Fprintf(w, "c05.free %s %d %d %d %d\n", k, c, rng.Range(2, 12), rng.Range(10, 80), rng.Intn(1000000))
+		if rng.Chance(1, 2) {
+			c = rng.Range(1, 3)
+		}
+		fmt.Fprintf(w, "c05.free %s %d %d %d %d\n", k, c, rng.Range(c+1, 16), rng.Range(20, 80), rng.Intn(1000000))
 	}
 	// whole pipeline
 	fixed := []string{
